@@ -32,6 +32,8 @@ def gen_case(rs, tier):
     case = {"design": ast, "knobs": knobs, "strategies": strategies, "n": krng.choice([1, 2, 2, 5]), "faults": faults}
     case["tier"] = tier
     case["sweep"] = W.stream(rs, "sweep").random() < (0.15 if tier == "thorough" else 0.04)
+    if case["sweep"]:
+        case["timeout"] = 150        # one workload, run once per fault placement
     return case
 
 
